@@ -264,6 +264,19 @@ def check(ctx):
     from .C13 import no_operand_mutation
 
     no_operand_mutation(ctx)
+    # ---------------- aligned binary methods forward their trailing operands POSITIONALLY: same order on both sides
+    ex36 = ctx.model.module("dask/dataframe/dask_expr/_expr.py")
+    def _params(cname):
+        c_ = ex36.cls(cname)
+        for st in c_.body:
+            if isinstance(st, ast.Assign) and eqv(st.targets[0], "_parameters") and isinstance(st.value, ast.List):
+                return [e.value for e in st.value.elts if isinstance(e, ast.Constant)]
+        return None
+    pa, pm = _params("MethodOperatorAlign"), _params("MethodOperator")
+    opf = ex36.func("MethodOperatorAlign._op")
+    fwd = any(eqv(r.value, "MethodOperator(op, frame, other, *args, **kwargs)") for r in returns(opf))
+    ok = pa is not None and pm is not None and fwd and pa[:3] == ["frame", "other", "op"] and pm[:3] == ["name", "left", "right"] and pa[3:] == pm[3:]
+    ctx.ob("ARGPOS.align-forward", opf, f"MethodOperatorAlign{pa} -> MethodOperator(op, frame, other, *rest): rest {pa[3:] if pa else None} == {pm[3:] if pm else None}", ok, "" if ok else "the trailing operands reach MethodOperator in a different order: fill_value lands in `level` (pandas ignores level on a flat index) and is lost for operands that need alignment")
 
 
 VARIANTS = [
